@@ -1029,6 +1029,9 @@ class sptensor:
             if not self.shape == other.shape:
                 assert False, "Must be tensors of the same shape"
 
+            if self.nnz == 0 or other.nnz == 0:
+                return sptensor(shape=self.shape)
+
             C = sptensor.from_aggregator(
                 np.vstack((self.subs, other.subs)),
                 np.vstack((self.vals, other.vals)),
@@ -1040,7 +1043,14 @@ class sptensor:
             return C
 
         if isinstance(other, ttb.tensor):
-            BB = sptensor(self.subs, other[self.subs][:, None], self.shape)
+            if not self.shape == other.shape:
+                assert False, "Must be tensors of the same shape"
+            if self.nnz == 0:
+                return sptensor(shape=self.shape)
+            # Only the nonzeros of other at the stored subscripts take part
+            othervals = np.atleast_1d(other[self.subs])
+            keep = othervals != 0
+            BB = sptensor(self.subs[keep], othervals[keep][:, None], self.shape)
             C = self.logical_and(BB)
             return C
 
@@ -1133,6 +1143,10 @@ class sptensor:
             assert False, "Logical Or requires tensors of the same size"
 
         if isinstance(other, ttb.sptensor):
+            if self.nnz == 0:
+                return other.ones()
+            if other.nnz == 0:
+                return self.ones()
             C = sptensor.from_aggregator(
                 np.vstack((self.subs, other.subs)),
                 np.ones((self.subs.shape[0] + other.subs.shape[0], 1)),
@@ -1204,6 +1218,10 @@ class sptensor:
             if self.shape != other.shape:
                 assert False, "Logical XOR requires tensors of the same size"
 
+            if self.nnz == 0:
+                return other.ones()
+            if other.nnz == 0:
+                return self.ones()
             subs = np.vstack((self.subs, other.subs))
             result = ttb.sptensor.from_aggregator(
                 subs, np.ones((len(subs), 1)), self.shape, lambda x: len(x) == 1
